@@ -125,9 +125,13 @@ def oracle_run(args):
         if d > defect:
             defect, defect_at = d, s["time"]
     rk4_truncation = None
-    if defect > 1e-9:
+    # an UNSTABLE RK4 run (|H_eff| x sub-step beyond the stability limit 2.8: near-degenerate levels of a random model, coupling 1/gap)
+    # grows until it overflows: "not finite" is then the same defect in its extreme form (thorough seed 83) and is examined in the same
+    # way - Hermiticity and trace held (relative to |rho|) up to the overflow, and the defect vanishes under refinement
+    nonfinite_only = bool(problems) and all("not finite" in p_ for p_ in problems)
+    if defect > 1e-9 or nonfinite_only:
         msg = "t=%r: positivity/purity defect %.3g (negative eigenvalue, population outside [0,1] or tr rho^2 != 1)" % (defect_at, defect)
-        if spec["integ"] == "linear-rk4" and not problems and not spec.get("_refining"):
+        if spec["integ"] == "linear-rk4" and (not problems or nonfinite_only) and not spec.get("_refining"):
             # is this the truncation error of the (non-unitary) RK4 scheme - Lean witness rk4_purity_witness - and nothing else?
             # then it vanishes when the electronic sub-step is refined (4th order); any other cause does not
             rk4_truncation = False
@@ -137,13 +141,14 @@ def oracle_run(args):
                 ok2, obs2, _r, _t = oracle_run(sub)
                 if "exception" in obs2:
                     break
-                if ok2 or (not obs2.get("strict_problems") and obs2.get("defect", 1.0) <= max(1e-9, defect / 16.0)):
+                if ok2 or (not obs2.get("strict_problems") and obs2.get("defect", 1.0) <= max(1e-9, min(defect, 1.0) / 16.0)):
                     rk4_truncation = True
                     break
-        problems.append(msg)
+        if defect > 1e-9:
+            problems.append(msg)
     if records and max(records) != 0.0:
         problems.append("a hop attempt changed the density matrix by %.3g" % max(records))
-    strict = [p for p in problems if "positivity/purity defect" not in p]
+    strict = [p for p in problems if "positivity/purity defect" not in p and not (rk4_truncation and "not finite" in p)]
     return not problems, {"snapshots": len(tr), "hop_attempts": len(records), "collapses": len(collapsed),
                           "collapses_in_hop_steps": collapse_info["with_hop"], "defect": defect, "strict_problems": strict[:2],
                           "only_rk4_truncation": bool(rk4_truncation) and not strict, "problems": problems[:2]}, \
